@@ -69,6 +69,10 @@ claim("C15", "static analysis: per-access lockset rule for the three guarded rel
       "Decides: every access to PortFwds/SocksCli/SocksSvr holds its declared mutex; every relay mutex is released on every path; no relay table is shrunk inside its own range loop without leaving it; {VER,NOAUTH} is written only where NOAUTH was offered and {VER,NOMATCH} otherwise; only CONNECT registers a client; the reply is VER REP 0x00 ATYP [len iff FQDN] addr port(big-endian) and is built from the connection/ATYP/address/port stored for that client, which are the parsed request's; the handshake readers use no bufio and return complete fields (io.ReadFull); relay tasks carry the client's own socket id. Known finding (printed as KNOWN-FINDING): a client-side EOF leaves the socket registered and the agent uninformed. Not decided: byte-stream integrity over all chunkings, ordering between relay goroutines, races on fields of elements handed out of the critical section (SocksClient.Conn).",
       TRUST, "DESIGN.md §3 R4/R5/R3, §4 C15")
 
+claim("C13", "static analysis: cross-language wire-schema comparison (shape of the DemonConfig.Add* sequence in PatchConfig vs the ParserGet* sequence of DemonConfig() in Demon.c, per TRANSPORT_* branch), option-to-ordinal provenance over SSA, enum-family rule, error-discipline rule, bit-layout rule, taint analysis from operator options to shell command lines",
+      "Decides: the configuration block packed for HTTP and SMB listeners has exactly the field kinds, order, loops and optional parts that the Demon's start-up reader consumes (both sides re-read from source on every run); each of the twelve option fields is packed at the ordinal the Demon reads it from and its variable is assigned only under its own option; no variable mixes constants of two enumerations; every Atoi/ParseWorkingHours error makes PatchConfig fail and Build return false; working hours are packed in disjoint masked fields. Known finding (printed as KNOWN-FINDING): operator build strings reach `sh -c`. Not decided: value fidelity of strings (UTF-16), interface address resolution, the compiler invocation itself, host:port splitting of IPv6 hosts.",
+      TRUST + " The C reader is a purpose-built scanner for DemonConfig() (calls, for/if nesting, #ifdef TRANSPORT_*), not a C front end.", "DESIGN.md §3 R14-R16, §4 C13")
+
 for i in range(1, 21):
     pid = "C%02d" % i
     if pid not in CLAIMS and pid not in NA:
